@@ -57,8 +57,8 @@ type Meta struct {
 
 type fdef struct{ name, typ string }
 
-var dFields = []fdef{{"A", "string"}, {"B", "int"}, {"C", "string"}, {"D", "string"}, {"N", "Nest"}, {"P", "*Nest"}, {"Base", ""}, {"Q", "int"}, {"R", "string"}, {"L", "[]string"}}
-var sFields = []fdef{{"A", "int"}, {"B", "int"}, {"C", "string"}, {"D", "int"}, {"N", "Nest"}, {"P", "*Nest"}, {"Base", ""}, {"Q", "int"}, {"R", "string"}, {"L", "[]int"}}
+var dFields = []fdef{{"A", "string"}, {"B", "int"}, {"C", "string"}, {"D", "string"}, {"N", "Nest"}, {"P", "*Nest"}, {"Base", ""}, {"Q", "int"}, {"R", "string"}, {"L", "[]string"}, {"M", "map[string]string"}, {"G", "int"}}
+var sFields = []fdef{{"A", "int"}, {"B", "int"}, {"C", "string"}, {"D", "int"}, {"N", "Nest"}, {"P", "*Nest"}, {"Base", ""}, {"Q", "int"}, {"R", "string"}, {"L", "[]int"}, {"M", "map[string]int"}}
 
 func structText(name string, fs []fdef, pkgPrefix string) string {
 	var b strings.Builder
@@ -199,6 +199,9 @@ func Gen(r *sim.Rng, kind string) (*sim.WorldSpec, *Meta) {
 	sb.WriteString(getterText("Inner", "PlainV", "Inner.PlainV", false, false, "V"))
 	sb.WriteString(getterText("Nest", "GetY", "Nest.GetY", true, false, "Y"))
 	sb.WriteString(getterText("Nest", "PlainY", "Nest.PlainY", false, false, "Y"))
+	// an error-returning method named like the destination field G: not a getter
+	// in today's sense (getters have one result); dormant call site for :getter
+	sb.WriteString(getterText("S", "G", "S.G", true, getBPtr, "Q"))
 	sb.WriteString(getterText("S", "GetB", "S.GetB", true, getBPtr, "B"))
 	sb.WriteString(getterText("S", "PlainB", "S.PlainB", false, getBPtr, "B"))
 	sb.WriteString(getterText("Extra", "Get", "Extra.Get", true, false, "V"))
@@ -237,6 +240,7 @@ func Gen(r *sim.Rng, kind string) (*sim.WorldSpec, *Meta) {
 	// local operand types for receiver methods
 	setup.WriteString(structText("LS", sFields, "ms."))
 	setup.WriteString(structText("LD", dOrder, "md."))
+	setup.WriteString(getterText("LS", "G", "LS.G", true, getBPtr, "Q"))
 	setup.WriteString(getterText("LS", "GetB", "LS.GetB", true, getBPtr, "B"))
 	setup.WriteString(getterText("LS", "PlainB", "LS.PlainB", false, getBPtr, "B"))
 
@@ -349,6 +353,27 @@ func Gen(r *sim.Rng, kind string) (*sim.WorldSpec, *Meta) {
 			f, c := pickCap(mm.RetErr, "cLE", "pLE")
 			notes = append(notes, ":conv "+f+" L")
 			capable[f] = c
+		}
+		// dormant slots: 'no match' on today's tree, call sites the moment the feature exists
+		if slot(15) {
+			f, c := pickCap(mm.RetErr, "cLE", "pLE")
+			notes = append(notes, ":conv "+f+" M") // a converter for the VALUES of a map field
+			capable[f] = c
+		}
+		if slot(15) {
+			f, c := pickCap(mm.RetErr, "cNX", "pNX")
+			notes = append(notes, ":conv "+f+" P.X") // a path through a pointer-to-struct field
+			capable[f] = c
+		}
+		if slot(15) {
+			notes = append(notes, ":getter") // would pick up S.G() (int, error) for the field G
+			if mm.RetErr || kind == "noerr" {
+				t := "S.G"
+				if mm.Local {
+					t = "LS.G"
+				}
+				capable[t] = true
+			}
 		}
 		if slot(30) {
 			f, c := pickCap(mm.RetErr, "cC", "pC")
